@@ -5,8 +5,6 @@ CONSTANTS
 INVARIANT InvIdealRoundTrip
 INVARIANT InvRoundTripModuloKnown
 INVARIANT InvHazardsAreReal
-INVARIANT InvMultiModuloKnown
-INVARIANT InvMultiHazardReal
 INVARIANT InvCfgRoundTripModuloKnown
 INVARIANT InvCfgIdeal
 INVARIANT InvFind
